@@ -268,7 +268,7 @@ LawPow(x, y, neg) ==
                        /\ MatMul(MatPow(x, -k), full) = Identity(n)
                        /\ full = MatPow(Inverse(x), -k)
                        /\ neg
-           /\ Det(full) = (IF k >= 0 THEN GIPow(Det(x), k) ELSE GInv(GIPow(Det(x), -k)))
+           /\ k >= -1 => Det(full) = (IF k >= 0 THEN GIPow(Det(x), k) ELSE GInv(Det(x)))   \* (larger -k: 32-bit range)
   /\ (IsSquare(x) /\ IsScalar(y) /\ GIsInteger(y.e[1]) /\ GIntValue(y.e[1]) < 0) =>
         (IsErr(o) <=> (~neg \/ IsSingular(x)))
   /\ (~(IsSquare(x) /\ IsScalar(y) /\ GIsInteger(y.e[1]) /\ GIntValue(y.e[1]) < 0)) =>
